@@ -19,7 +19,7 @@ ANCHORS = ["occupancy_shape_from_state", "DynamicObstacle.occupancy_at_time", "D
            "Scenario.obstacle_states_at_time_step", "Scenario.obstacles_by_role_and_type",
            "Scenario.obstacles_by_position_intervals"]
 REQUIRED = ["set.intervals-sharing-a-step", "requery-after.trajectory.translate_rotate", "requery-after.prediction.shape=", "role.static", "role.dynamic", "role.phantom", "role.environment", "pred.trajectory", "pred.gap", "pred.set",
-            "pred.set-interval", "pred.none", "state.PMState", "state.KSState", "state.MBState", "state.CustomState",
+            "pred.set-interval", "pred.none", "pred.overlap", "state.PMState", "state.KSState", "state.MBState", "state.CustomState",
             "exact-placement.Rectangle", "exact-placement.Circle", "exact-placement.Polygon",
             "exact-placement.ShapeGroup", "uncertain-position.Rectangle", "uncertain-position.Circle",
             "uncertain-position.Polygon", "uncertain-orientation", "t.before", "t.after", "pm.quadrant-2",
@@ -118,11 +118,15 @@ def run(ctx):
         unc = rng.choice([None, None, None, "position", "orientation", "both"])
         shape = gen_shape(G, rng, allow_group=True)
         init = gen_state(G, rng, "InitialState", t0, oid, uncertain=rng.choice([None, None, unc]))
-        pk = ["trajectory", "gap", "set", "set-interval", "none"][i % 5]
+        pk = ["trajectory", "gap", "set", "set-interval", "none", "overlap"][i % 6]
         pred, tf = None, t0
-        if pk in ("trajectory", "gap"):
+        if pk in ("trajectory", "gap", "overlap"):
             cls = TRAJ_CLASSES[(i // 5) % len(TRAJ_CLASSES)]
             ts = t0 + 1 + (rng.randint(1, 3) if pk == "gap" else 0)
+            if pk == "overlap":
+                # the trajectory begins at or BEFORE the initial time step (an obstacle re-anchored at a later measured
+                # state keeps its prediction): before the initial time step the obstacle has neither state nor occupancy
+                ts = max(0, t0 - rng.randint(0, 2))
             n = rng.randint(1, 6)
             u2 = unc if cls != "PMState" else (unc if unc == "position" else None)
             states = [gen_state(G, rng, cls, ts + k, oid, uncertain=u2) for k in range(n)]
@@ -136,7 +140,7 @@ def run(ctx):
         elif pk in ("set", "set-interval"):
             n = rng.randint(1, 5)
             occs, t = [], t0 + 1
-            touching = pk == "set-interval" and (i // 5) % 3 == 1
+            touching = pk == "set-interval" and (i // 6) % 3 == 1
             for k in range(n):
                 if pk == "set-interval" and rng.random() < 0.6:
                     w = rng.randint(0, 2) + (1 if touching else 0)
@@ -206,7 +210,7 @@ def run(ctx):
                     ctx.violation("C04/DynamicObstacle.state_at_time/raises-%s" % type(e).__name__, "t=%d: %r" % (t, e),
                                   {"desc": desc, "t": t})
         # query -> transform / re-assign -> query: the occupancy must be the shape placed at the state the obstacle has NOW
-        if role == "dynamic" and desc["kind"] in ("trajectory", "gap"):
+        if role == "dynamic" and desc["kind"] in ("trajectory", "gap", "overlap"):
             op = ["trajectory.translate_rotate", "prediction.translate_rotate", "obstacle.translate_rotate",
                   "prediction.shape=", "prediction.trajectory="][(i // 30 + i // 6) % 5]
             ctx.feature("requery-after." + op)
